@@ -10,11 +10,11 @@ ID = 'C12'
 THEOREMS = CT.THEOREMS_C12 + [
     ('EAO.Properties.C19', 'EAO.C19.dt_real', 'each step length equals the real elapsed time to the next point in main time units, for any point list (DST, calendar months)'),
 ] + ST_.THEOREMS_C12_STORAGE + CH_.THEOREMS_C12_CHP
-PARTIAL = ['unit_change is proved builder by builder: contract / transport / multi-commodity (rates not given as price keys), Storage (all options), CHP / Plant incl. ramp profiles, min-load costs and costs_only (rates not given as price keys; the constructor guard on declared histories must be stable under the change: it is evaluated on raw values, known finding F-06d); for price-key rates and for LinkedAsset the statement rests on the metamorphic oracles', 'the unit_change theorems are statements over exact rationals; that the floating-point arithmetic of the code (np.cumsum of step lengths against max_store_duration, ceil of duration / step) does not make the result depend on the unit is NOT proved: it rests on the stream non-dyadic unit change (durations in whole grid steps, finding F-12c was of this kind)']
+PARTIAL = ['unit_change is proved builder by builder: contract / transport / multi-commodity (rates not given as price keys), Storage (all options), CHP / Plant incl. ramp profiles, min-load costs and costs_only (rates not given as price keys; the constructor guard on declared histories must be stable under the change: it is evaluated on raw values, known finding F-06d); for price-key rates and for LinkedAsset the statement rests on the metamorphic oracles', 'the unit_change theorems are statements over exact rationals; that the floating-point arithmetic of the code (np.cumsum of step lengths against max_store_duration, ceil of duration / step) does not make the result depend on the unit is NOT proved: it rests on the stream non-dyadic unit change (durations in whole grid steps; findings F-12c, F-12d, F-12e were of this kind)']
 COMPONENTS = ['contract/transport builders under unit pairs (dt scaling)', 'independent reference LP (harness/comp/textbook.py) on zone-aware daily grids across daylight-saving switches: costs and limits billed by elapsed time']
 RULE = ('metamorphic: random small portfolios of contracts and transports re-expressed for another main time unit among h, d, min, s (rates scaled) and re-optimised on the real code: value and dispatched volumes equal; '
         'non-dyadic unit change: unit-free situations (volumes per grid step, durations in WHOLE grid steps) expressed for two main time units in at least one of which the step is no binary fraction '
-        '(hourly / 15-min / 30-min / 2h / 4h / 8h grids in d, 5 / 10 / 20-min grids in h and d, against h, min, s; for storages also daily / 12h / 6h / hourly grids in weeks), every rate (capacities, inflow, holding cost, ramp, last dispatch) and duration '
+        '(hourly / 15-min / 30-min / 2h / 4h / 8h grids in d, 5 / 10 / 20-min grids in h and d, against h, min, s; daily / 12h / 6h / hourly grids in weeks; grids with a resolution of seconds - 1 s, 5 s, 10 s, 30 s, 40..90 steps, durations up to 48 steps - in s, min, h, d, W: fixed finding F-12e), every rate (capacities, inflow, holding cost, ramp, last dispatch) and duration '
         '(Storage.max_store_duration, Plant / CHPAsset min_runtime, min_downtime, time_already_running, time_already_off, LinkedAsset time_back / time_forward) rounded once to the nearest float, prices drawn so that the '
         'duration in focus binds (recorded per case: value changes when the duration is one step shorter / longer), both problems solved on the real code: same status, optimal value equal (1e-6 relative), and the optimal dispatch of '
         'either unit is an optimal dispatch in the other (feasible and equally valuable there); first cases: buy in one hour, sell D hours later with a maximal holding time of D hours, D drawn from 1..23, units h / d (fixed finding F-12c); '
@@ -221,9 +221,24 @@ ND_GRIDS_WEEK = [
 # (pd.to_timedelta(to_offset('W')): "Value must be Timedelta, ... not Week") while Timegrid, contracts and Storage work in weeks;
 # repaired in /repo (a65962a, finding F-12d).  The plant / linked families draw the week too (False: development switch only).
 ND_WEEK_PLANTS = True
+# grids with a resolution of SECONDS (short horizons of 40..90 steps, durations up to 48 steps): value * Timedelta used to be cut
+# to the resolution of the Timedelta (whole seconds for 'min', 'h', 'd'), so a duration a hair below k seconds lost a step on a
+# grid in seconds (finding F-12e, repaired in /repo c881ce0: 11/86400 d = 10 steps instead of 11; wrong for 11, 22, 29, 44, 58, 61,
+# 85, 88 ... steps from d and 115, 119, 123 ... from h)
+ND_GRIDS_SEC = [
+    ('s', 1, [('s', 'd'), ('s', 'd'), ('s', 'd'), ('min', 'd'), ('h', 'd'), ('s', 'h'), ('s', 'min'), ('min', 'h'), ('s', 'W')], 90),
+    ('5s', 5, [('s', 'd'), ('min', 'd'), ('s', 'h'), ('s', 'min'), ('min', 'h')], 90),
+    ('10s', 10, [('s', 'd'), ('min', 'd'), ('s', 'h'), ('s', 'min'), ('min', 'h')], 90),
+    ('30s', 30, [('s', 'd'), ('min', 'd'), ('h', 'd'), ('s', 'h'), ('min', 'h')], 90),
+]
 
 
-def _nd_grid(rnd, tmin, tmax, week=True):
+def _nd_grid(rnd, tmin, tmax, week=True, sec=False):
+    if sec:
+        freq, step_s, pairs, tlim = ND_GRIDS_SEC[0] if rnd.random() < 0.7 else rnd.choice(ND_GRIDS_SEC[1:])
+        ua, ub = rnd.choice(pairs)
+        # (the set-up of a plant adds its rows one by one: mostly the shorter horizons, to keep the quick tier quick)
+        return freq, step_s, [ua, ub], rnd.randint(tmin, min(tmax, tlim) if rnd.random() < 0.3 else min(tmax, 60))
     in_weeks = rnd.random() < 0.25
     freq, step_s, pairs, tlim = rnd.choice(ND_GRIDS_WEEK if (week and in_weeks) else ND_GRIDS)
     ua, ub = rnd.choice(pairs)
@@ -253,9 +268,24 @@ def nd_cases(rnd, n):
     for i in range(n // 8):
         r2 = random.Random(rnd.getrandbits(48))
         yield 'ndlink%d' % i, gen_nd_linked(r2)
+    # grids in seconds: 40..90 steps, durations of up to 48 steps (the conversion of a duration to steps is exposed only where the
+    # step is as fine as the resolution the code computes in)
+    for i in range(n):
+        r2 = random.Random(rnd.getrandbits(48))
+        u = r2.random()
+        if u < 0.75:
+            tag, c = 'ndsecplant%d' % i, gen_nd_plant(r2, sec=True)
+        elif u < 0.85:
+            tag, c = 'ndseclink%d' % i, gen_nd_linked(r2, sec=True)
+        else:
+            freq, step_s, units, T = _nd_grid(r2, 40, 90, sec=True)
+            tag, c = 'ndsechold%d' % i, ST_.gen_unit_hold_case(r2, freq, step_s, T, literal=r2.random() < 0.4)
+            c['units'] = units
+        c['bind_check'] = r2.random() < 0.4      # (these problems are larger: whether the duration binds is looked at for a part of them)
+        yield tag, c
 
 
-def gen_nd_plant(rnd):
+def gen_nd_plant(rnd, sec=False):
     """a plant (Plant or CHPAsset with a heat market) with a minimal load, selling into a market whose price is below the plant's
     cost except for spikes; one duration parameter is in focus and the prices are drawn so that it binds:
       min_runtime R          one spike shorter than R: the plant must keep running at a loss for the rest of R
@@ -264,7 +294,8 @@ def gen_nd_plant(rnd):
       time_already_off       off for a steps of Dn at the start, spike at the start: Dn - a steps of the spike are lost
     ramp (a rate), start costs and discounting optional; exactly one history is declared whenever a minimal downtime is given (the constructor
     guard on raw values, known finding F-06d, is then stable)"""
-    freq, step_s, units, T = _nd_grid(rnd, 10, 20, week=ND_WEEK_PLANTS)
+    freq, step_s, units, T = _nd_grid(rnd, 40, 90, sec=True) if sec else _nd_grid(rnd, 10, 20, week=ND_WEEK_PLANTS)
+    big = min(T, 48) if sec else 0        # on the grids in seconds the durations go up to 48 steps
     focus = rnd.choice(['min_runtime', 'min_runtime', 'min_downtime', 'min_downtime', 'time_already_running', 'time_already_off'])
     lo, hi = rnd.choice([(2.0, 6.0), (1.0, 4.0), (3.0, 8.0)])           # volume per step at minimal / full load
     cost = 20.0 + gen.q8(rnd, 0, 6)
@@ -273,8 +304,8 @@ def gen_nd_plant(rnd):
     p = [base + gen.q8(rnd, 0, 1) for _ in range(T)]
     dur = {}
     if focus == 'min_runtime':
-        R = rnd.randint(2, min(8, T - 3))
-        r = rnd.randint(1, R - 1)
+        R = rnd.randint(2, min(max(8, big), T - 3))
+        r = rnd.randint(max(1, R // 3), R - 1)            # long enough to pay for the rest of the minimum runtime
         t0 = rnd.randint(1, T - R - 1)
         for t in range(t0, t0 + r):
             p[t] = spike + gen.q8(rnd, 0, 1)
@@ -283,7 +314,7 @@ def gen_nd_plant(rnd):
             dur['min_downtime'] = rnd.randint(1, 3)
             dur['time_already_off'] = rnd.randint(1, 4)
     elif focus == 'min_downtime':
-        Dn = rnd.randint(2, min(7, T - 5))
+        Dn = rnd.randint(2, min(max(7, big), T - 6))
         r1, r2 = rnd.randint(1, 2), rnd.randint(1, 2)
         t0 = rnd.randint(1, T - Dn - r1 - r2)
         gap = Dn if rnd.random() < 0.6 else Dn - 1       # just allowed (one step more would not be) / just not allowed
@@ -297,7 +328,7 @@ def gen_nd_plant(rnd):
         if rnd.random() < 0.4:
             dur['min_runtime'] = rnd.randint(1, 2)
     elif focus == 'time_already_running':
-        R = rnd.randint(3, min(9, T - 2))
+        R = rnd.randint(3, min(max(9, big), T - 2))
         a = rnd.randint(1, R - 1)
         dur['min_runtime'] = R
         dur['time_already_running'] = a
@@ -308,7 +339,7 @@ def gen_nd_plant(rnd):
         if rnd.random() < 0.4:
             dur['min_downtime'] = rnd.randint(1, 3)
     else:
-        Dn = rnd.randint(3, min(9, T - 2))
+        Dn = rnd.randint(3, min(max(9, big), T - 2))
         a = rnd.randint(1, Dn - 1)
         dur['min_downtime'] = Dn
         dur['time_already_off'] = a
@@ -330,16 +361,20 @@ def gen_nd_plant(rnd):
     return c
 
 
-def gen_nd_linked(rnd):
+def gen_nd_linked(rnd, sec=False):
     """two plants linked by a LinkedAsset: the profitable plant a1 may dispatch only after a2 has been on for time_back (focus);
     a2 optionally with declared running time and minimum runtime"""
     import math
-    freq, step_s, units, T = _nd_grid(rnd, 8, 14, week=ND_WEEK_PLANTS)
+    freq, step_s, units, T = _nd_grid(rnd, 40, 48, sec=True) if sec else _nd_grid(rnd, 8, 14, week=ND_WEEK_PLANTS)
     c = {'family': 'linked', 'freq': freq, 'step_s': step_s, 'T': T, 'units': units, 'focus': 'time_back', 'start': '2021-01-01T00:00:00',
-         'p': [20 + round(15 * math.sin(t / 3.0) * 8) / 8.0 + gen.q8(rnd, 0, 5) for t in range(T)],
+         'p': [20 + round(15 * math.sin(t / (T / 6.0 if sec else 3.0)) * 8) / 8.0 + gen.q8(rnd, 0, 5) for t in range(T)],
          'a1': [2.0, 6.0, gen.q8(rnd, 14, 22)], 'a2': [1.0, 3.0, gen.q8(rnd, 18, 26)],
          'dur': {'time_back': rnd.randint(1, 4), 'time_forward': rnd.choice([0, 0, 1]), 'time_already_running': rnd.choice([0, 1, 2]),
                  'min_runtime': rnd.choice([0, 2, 3])}}
+    if sec:
+        tb = rnd.randint(1, 24)
+        c['dur'] = {'time_back': tb, 'time_forward': rnd.choice([0, 0, 1, 2]), 'time_already_running': rnd.choice([0, rnd.randint(1, tb), rnd.randint(1, 24)]),
+                    'min_runtime': rnd.choice([0, rnd.randint(2, 24)])}
     return c
 
 
@@ -489,6 +524,9 @@ def run_nondyadic(c):
     uref = ua if dyadic(ua) or not dyadic(ub) else ub
     vref = ra['value'] if uref == ua else rb['value']
     k = c['D'] if c['family'] == 'hold' else c['dur'][c['focus']]
+    if not c.get('bind_check', True):
+        r['features'].append('nd:binds:not-looked-at')
+        return r
     binds = []
     for sh in (-1, 1):
         if k + sh < 0 or (c['family'] == 'hold' and k + sh < 1):
